@@ -570,6 +570,9 @@ impl FileStateMachine {
                 let value_data = Bytes::from(buffer[pos..pos + value_len].to_vec());
                 pos += value_len;
                 Some(value_data)
+            } else if op_code == WalOpCode::Insert {
+                // an INSERT always carries a value; length 0 is the empty value, not "no value"
+                Some(Bytes::new())
             } else {
                 None
             };
